@@ -448,6 +448,19 @@ def run(ctx):
                                          and c.args[0].id == 'encoding' for c in ast.walk(n.test)) \
                 and any(isinstance(b, ast.Assign) and any(isinstance(t, ast.Name) and t.id == 'encoding' for t in b.targets) for b in n.body):
             okprobe = True
+            # the probe must exercise every printable ASCII character: hz rewrites only '~', unicode_escape only '\\',
+            # shift_jisx0213 only '\\' and '~' - a probe of a few letters lets them through
+            for c in ast.walk(n.test):
+                if isinstance(c, ast.Call) and U.attr_name(c) == 'encode' and c.args and isinstance(c.args[0], ast.Name) and c.args[0].id == 'encoding':
+                    try:
+                        probe = repo.fold(mod, c.func.value)
+                    except ValueError:
+                        probe = None
+                    missing = sorted(set(map(chr, range(0x21, 0x7f))) - set(probe)) if isinstance(probe, str) else None
+                    ck.expect(missing == [], 'C10-D1', pfn.qual, 'the ASCII-transparency probe covers every printable ASCII character',
+                              'the probe %s does not contain %s: a codec that rewrites only such a character (hz: "~", unicode_escape: "\\") '
+                              'is used for escapes and the normal form changes each time it is parsed again ("/~a" -> "/~~a" -> "/~~~~a")'
+                              % ('%r' % probe if isinstance(probe, str) else 'is not a constant', ''.join(missing[:12]) if missing else '?'), pfn.loc(n))
     ck.expect(okprobe, 'C10-D1', pfn.qual, 'a document encoding that is not ASCII-transparent is replaced before it is used for escapes',
               'path, query and fragment are percent-encoded with the document encoding even when it does not map ASCII to itself '
               '(utf-16: "http://example.com/a" becomes "http://example.com%FF%FE/%00a%00?%FF%FE", which does not parse again)', pfn.loc())
